@@ -1046,7 +1046,10 @@ fn union_single_and_range(
             }
             let mut indices = indicies.iter().collect::<Vec<_>>();
             indices.sort();
-            let mut last = indices[0];
+            // an empty string united with an empty range denotes no character at all
+            let Some(mut last) = indices.first().copied() else {
+                return Ok(None);
+            };
             let mut contiguous = true;
             for v in indices[1..].iter() {
                 if **v != last + 1 {
